@@ -296,6 +296,43 @@ func prefixCase(c *hx.Rand) shapeCase {
 		rq: fga.Req{Obj: "doc:" + placeholder, Rel: "viewer", User: me}}}
 }
 
+// wideCase: many more candidates that need a residual Check (intersection / exclusion) than any result buffer
+// holds; run at breadth limit 1 (kind "wide…" is pinned to breadth 1 by the emitter): the worker pool of the classic
+// engine must have room for the reverse expansion AND one checker, or the call stalls until its deadline and
+// silently returns a partial list.
+func wideCase(c *hx.Rand) shapeCase {
+	u := fga.Restr{Typ: "user"}
+	const me = "user:x"
+	n := 140 + c.Intn(60)
+	doc := &fga.TypeDef{Name: "doc"}
+	excl := c.Chance(1, 3)
+	side := "gate"
+	if excl {
+		side = "blocked"
+	}
+	doc.Rels = append(doc.Rels, &fga.RelDef{Name: side, Rewrite: this(), Restrs: []fga.Restr{u}})
+	var tuples []fga.Tuple
+	for i := 1; i <= n; i++ {
+		o := fmt.Sprintf("doc:w%03d", i)
+		tuples = append(tuples, fga.Tuple{Obj: o, Rel: "viewer", User: me})
+		if excl {
+			if i%9 == 0 {
+				tuples = append(tuples, fga.Tuple{Obj: o, Rel: side, User: me})
+			}
+		} else if i%9 != 0 {
+			tuples = append(tuples, fga.Tuple{Obj: o, Rel: side, User: me})
+		}
+	}
+	rw := op("inter", this(), cu(side))
+	if excl {
+		rw = op("diff", this(), cu(side))
+	}
+	doc.Rels = append(doc.Rels, &fga.RelDef{Name: "viewer", Rewrite: rw, Restrs: []fga.Restr{u}})
+	m := &fga.Model{Types: []*fga.TypeDef{{Name: "user"}, doc}}
+	return shapeCase{kind: "wide", craftedCase: craftedCase{m: m, tuples: tuples,
+		rq: fga.Req{Obj: "doc:" + placeholder, Rel: "viewer", User: me}}}
+}
+
 // higherCase: a store `pre`, and the store after one write that deletes a tuple behind a listed object and adds
 // a tuple that lists a new object.
 func higherCase(c *hx.Rand) shapeCase {
@@ -375,6 +412,9 @@ func shapeCases(r *hx.Rand, tier string) []shapeCase {
 	// drawn after all the others so that their streams stay what they were
 	for i := 0; i < 3*scale; i++ {
 		out = append(out, prefixCase(c.Fork()))
+	}
+	for i := 0; i < 2; i++ {
+		out = append(out, wideCase(c.Fork()))
 	}
 	return out
 }
